@@ -26,6 +26,7 @@ import (
 
 	commonmodels "github.com/lindb/common/models"
 
+	"github.com/lindb/lindb/internal/verifhook"
 	"github.com/lindb/lindb/query/tracker"
 	"github.com/lindb/lindb/series/tag"
 )
@@ -82,6 +83,7 @@ func (ctx *LeafGroupingContext) ForkGroupingTask() {
 // CompleteGroupingTask completes a grouping task, if all grouping tasks are completed, do collect grouping tag values.
 func (ctx *LeafGroupingContext) CompleteGroupingTask() {
 	ctx.groupingRelatedTasks.Dec()
+	verifhook.Yield("query.leafgrouping.complete.afterDec")
 
 	ctx.collectGroupByTagValues()
 }
@@ -93,6 +95,7 @@ func (ctx *LeafGroupingContext) collectGroupByTagValues() {
 		// task not completed or isn't grouping query, return it.
 		return
 	}
+	verifhook.Yield("query.leafgrouping.collect.afterLoad")
 	// start execute collect grouping tag values
 	ctx.leafExecuteCtx.Tracker.SetGroupingCollectStageValues(func(stage *commonmodels.StageStats) {
 		if stage.State == tracker.InitState.String() {
